@@ -269,6 +269,7 @@ func init() {
 	registerSync()
 	registerMath()
 	registerMisc()
+	registerUnique()
 }
 
 func (in *Interp) callerPos(th *Thread) string {
